@@ -80,6 +80,10 @@ def generate(rng, tier="quick"):
             step["cls"] = rng.choice(["A", "B", "S"])
             step["pw"] = gen.gen_bytes(rng).hex()
         cfg = {"psets": [ps], "nodes": []}
+    if rng.random() < 0.12:
+        w2 = rng.choice([2, 3, 200, 255, 256, 257, 1000, 65535, 65536, 65537, 1 << 24, (1 << 64) + 1, 1 << 160,
+                         rng.randrange(1, 1 << 20), rng.randrange(1, 1 << 300)])
+        step["reenter"] = [0, w2]
     if depth2:
         step["depth2"] = rng.randrange(1 << 30)
     if rng.random() < 0.15 and fn != "start":
@@ -119,7 +123,8 @@ class Scripted:
     """entropy seam answering a prescribed prefix; afterwards either stops the call
     (stop=True) or continues with a uniform stream"""
 
-    def __init__(self, prefix, seed, stop=False):
+    def __init__(self, prefix, seed, stop=False, pre=None):
+        self.pre = pre           # one-shot callback run inside the first read (re-entrancy at the seam)
         self.prefix = prefix
         self.i = 0
         self.seed = seed
@@ -128,6 +133,9 @@ class Scripted:
         self.stop = stop
 
     def __call__(self, n):
+        if self.pre is not None:
+            p, self.pre = self.pre, None
+            p()
         if self.i < len(self.prefix):
             self.sizes.append(n)
             v = self.prefix[self.i]
@@ -210,7 +218,19 @@ def execute(scn):
     # sweep
     f, lo, hi, name = _sweep_target(lib, step, scn["config"]["psets"])
     width = hi - lo
-    probe0 = Scripted([], 0)
+    pre = None
+    if step.get("reenter"):
+        # the entropy function is application code: while the sampler waits for its bytes, ANOTHER draw
+        # (other range, own stream) runs to completion on the same thread
+        lo2, hi2 = step["reenter"]
+
+        def pre():
+            try:
+                lib.util.unbiased_randrange(lo2, hi2, Scripted([], lo2 + hi2))
+            except Exception:        # noqa
+                pass
+        w.probe("sweep:reentrant")
+    probe0 = Scripted([], 0, pre=pre)
     try:
         f(probe0)
     except Exception as e:
@@ -228,7 +248,7 @@ def execute(scn):
     rejected = []
     t0 = lib.trip.calls
     for s in range(space):
-        e = Scripted([s], s, stop=True)
+        e = Scripted([s], s, stop=True, pre=pre)
         try:
             v = f(e)
         except SweepStop:
